@@ -5,7 +5,6 @@ import (
 	stdjson "encoding/json"
 	"io"
 	"testing"
-
 )
 
 // FuzzC10_Differential: coverage-guided byte-level search with the oracle inside the target: the stack/State() model
